@@ -37,6 +37,24 @@ ActMono(m, s) ==
        IF r.sign = 0 THEN r
        ELSE LET q == ActOp(Head(m), r.s) IN [s |-> q.s, sign |-> q.sign * r.sign]
 
+\* the same action on Fock states with more modes than an integer holds: a state is the SET of its occupied modes
+ActOpSet(op, occ) ==
+  LET c == op[1]  i == op[2] IN
+  IF (c = 1 /\ i \in occ) \/ (c = 0 /\ i \notin occ) THEN [occ |-> {}, sign |-> 0]
+  ELSE [occ |-> IF c = 1 THEN occ \cup {i} ELSE occ \ {i},
+        sign |-> IF Cardinality({k \in occ : k < i}) % 2 = 0 THEN 1 ELSE -1]
+RECURSIVE ActMonoSet(_, _)
+ActMonoSet(m, occ) ==
+  IF m = <<>> THEN [occ |-> occ, sign |-> 1]
+  ELSE LET r == ActMonoSet(Tail(m), occ) IN
+       IF r.sign = 0 THEN r
+       ELSE LET q == ActOpSet(Head(m), r.occ) IN [occ |-> q.occ, sign |-> q.sign * r.sign]
+\* the two representations agree where both exist
+OccOf(s, M) == {i \in 0..(M - 1) : Bit(s, i) = 1}
+SetActionAgrees(M, monos) == \A m \in monos : \A s \in States(M) :
+   LET a == ActMono(m, s)  b == ActMonoSet(m, OccOf(s, M)) IN
+   a.sign = b.sign /\ (a.sign # 0 => OccOf(a.s, M) = b.occ)
+
 \* ---- sparse matrices: function from a set of <<bra, ket>> to <<re, im>> (no zero entries) ------
 Zero == [x \in {} |-> <<0, 0>>]
 CAdd(a, b) == <<a[1] + b[1], a[2] + b[2]>>
